@@ -81,6 +81,22 @@ structure PlotOps (D A F M C Z : Type) where
   /-- `len(f) == 0` -/
   isEmpty : F → Bool
 
+/-- a limit of the colour normalisation, by where it comes from: the caller's `vmin` (0) / `vmax` (1) argument (and whether
+it is a zero), `zlims[i]`, the minimum / maximum of the FINITE values of the colour quantity, a float constant -/
+inductive LimV where
+  | arg (which : Nat) (isZero : Bool)
+  | zlim (i : Nat)
+  | dataMin
+  | dataMax
+  | const (s : String)
+deriving Repr, DecidableEq
+
+/-- the truth value Python gives the caller's argument: not `None` and not zero -/
+def LimV.truthy : Option LimV → Bool
+  | some (.arg _ z) => !z
+  | some _ => true
+  | none => false
+
 /-- `d[k] = v` on an insertion-ordered dict -/
 def plSet {α : Type} (d : List (String × α)) (k : String) (v : α) : List (String × α) :=
   if d.any (·.1 == k) then d.map fun p => if p.1 == k then (k, v) else p else d ++ [(k, v)]
@@ -345,5 +361,16 @@ def plGenX {D A F M C Z : Type} (o : PlotOps D A F M C Z) (ds : D) (zVals : List
     pure (yields, cCols)) (plEnumerate zVals)
 
 def plLoopNexts : List (String × List String × List String) := [("plot_lines", ["_cols", "_lws", "_mrkrs", "_zlbls", "_zordrs", "_lines"], []), ("plot_scatter", ["_mrkrs", "_zlbls", "_zordrs"], ["_cols"]), ("plot_histogram", ["_cols", "_lws", "_zordrs", "_zlbls"], [])]
+
+def plColorNorm (numeric : Bool) (vmin vmax : Option Bool) (zlimLo zlimHi : Bool) : Option LimV × Option LimV :=
+  let vminV : Option LimV := vmin.map fun a => LimV.arg 0 a
+  let vmaxV : Option LimV := vmax.map fun a => LimV.arg 1 a
+  let zmin1 : Option LimV := if (if zlimLo then some (LimV.zlim 0) else none).isNone then (some LimV.dataMin) else (if zlimLo then some (LimV.zlim 0) else none)
+  let zmax2 : Option LimV := if (if zlimHi then some (LimV.zlim 1) else none).isNone then (some LimV.dataMax) else (if zlimHi then some (LimV.zlim 1) else none)
+  let zmin3 : Option LimV := if numeric then zmin1 else (some (LimV.const "0.0"))
+  let zmax4 : Option LimV := if numeric then zmax2 else (some (LimV.const "1.0"))
+  let vmin5 : Option LimV := if vminV.isNone then zmin3 else vminV
+  let vmax6 : Option LimV := if vmaxV.isNone then zmax4 else vmaxV
+  (vmin5, vmax6)
 
 end Gen.Default
